@@ -22,6 +22,7 @@ class Prop:
     assumptions = []
     rule = ""
     batch = 4000
+    par = 1
 
     @property
     def lean_module(self):
@@ -52,10 +53,19 @@ class Prop:
         hist = {}
         seen = set()
         samples = []
-        for i in range(0, len(cases), self.batch):
-            chunk = cases[i:i + self.batch]
+        chunks = [cases[i:i + self.batch] for i in range(0, len(cases), self.batch)]
+
+        def one(chunk):
             impl = core.run_impl(chunk)
-            model = core.run_model(chunk, impl)
+            return impl, core.run_model(chunk, impl)
+        if self.par > 1 and len(chunks) > 1:
+            # independent batches (every case is self-contained): run the two drivers on several batches at a time
+            from concurrent.futures import ThreadPoolExecutor
+            with ThreadPoolExecutor(max_workers=self.par) as ex:
+                done = ex.map(one, chunks)
+        else:
+            done = map(one, chunks)
+        for chunk, (impl, model) in zip(chunks, done):
             for c in chunk:
                 im = impl.get(c["id"])
                 mo, sp = model.get(c["id"], (None, None))
@@ -887,8 +897,9 @@ def norm_tree(t):
 class C15(Prop):
     id = "C15"
     n_quick = 4000
-    n_thorough = 120000
+    n_thorough = 50000
     batch = 2000
+    par = 8
     required_theorems = ["C15_extract", "C15_parseFunction_total", "C15_parseFunction_tree_iff"]
     rule = ("inputs to parser.ParseFile (with and without StoreComments) and parser.ParseFunction, each run twice under recover and a per-input time bound (10 s + 0.2 ms/byte): "
             "30% well-formed expressions of the supported subset from the type-directed C01 generator (must be accepted, and the otto AST must equal the generator's tree: "
@@ -920,6 +931,8 @@ class C15(Prop):
             elif norm_tree(impl.get("ast")) != norm_tree(case["expect"]):
                 why.append("AST differs from the JavaScript tree: %s" % json.dumps(impl.get("ast"))[:300])
         ok = not why
+        if ok:
+            impl.pop("ast", None)   # 120000 retained trees are gigabytes; a failing case keeps its tree for the replay
         return (corr and (ok or any("ParseFunction: panic" in w for w in why))), ok, "%s %r: %s" % (case["bucket"], case["src"][:120], "; ".join(why) or "ok")
 
     def nontrivial(self, case, impl):
